@@ -328,3 +328,114 @@ def _c02b():
 def _c17a():
     n, a1, u1, a2, u2 = R("n"), R("a1"), R("u1"), R("a2"), R("u2")
     return [a1 * u1 == n, a2 * u2 == n], a1 * u1 == a2 * u2
+
+
+# C14 -----------------------------------------------------------------------------
+def _rv(fr):
+    return z3.RealVal(f"{fr.numerator}/{fr.denominator}")
+
+
+@lemma("C14/one-direction-table-roundtrip", ["C14"],
+       "forward a*f+o and the reversed formula (a-o)/f are mutually inverse "
+       "for every amount (f != 0): converting back returns the identical amount")
+def _c14a():
+    a, f, o = R("a"), R("f"), R("o")
+    fwd = a * f + o
+    rev = (a - o) / f
+    return [f != 0], z3.And((fwd - o) / f == a, rev * f + o == a)
+
+
+@lemma("C14/two-direction-table-roundtrip", ["C14"],
+       "with both directions tabulated the round trip holds for every amount "
+       "iff the rows are mutually inverse (f2 = 1/f1, o2 = -o1/f1)")
+def _c14b():
+    a, f1, o1, f2, o2 = R("a"), R("f1"), R("o1"), R("f2"), R("o2")
+    inverse = z3.And(f1 * f2 == 1, o2 == -o1 * f2)
+    rt = (a * f1 + o1) * f2 + o2 == a
+    b = R("b")
+    rt_b = (b * f1 + o1) * f2 + o2 == b
+    return [f1 != 0], z3.And(z3.Implies(inverse, rt),
+                             z3.Implies(z3.And(rt, rt_b, a != b), inverse))
+
+
+@lemma("C14/predefined-temperature-table", ["C14", "C20"],
+       "the rows of predefined._temp_conv (read from the AST): opposite rows "
+       "are mutually inverse, every triangle commutes for every amount, and "
+       "the defining fixed points hold")
+def _c14c():
+    from .catalog import temperature_rows
+    rows = temperature_rows()
+    a = R("a")
+    goals = []
+    units = sorted({u for k in rows for u in k})
+    want = [z3.BoolVal(len(units) == 3 and len(rows) == 6)]
+    for (u1, u2), (f, o) in rows.items():
+        if (u2, u1) not in rows:
+            want.append(z3.BoolVal(False))
+            continue
+        f2, o2 = rows[(u2, u1)]
+        goals.append((a * _rv(f) + _rv(o)) * _rv(f2) + _rv(o2) == a)
+        for u3 in units:
+            if u3 in (u1, u2) or (u2, u3) not in rows or (u1, u3) not in rows:
+                continue
+            g, p = rows[(u2, u3)]
+            h, q = rows[(u1, u3)]
+            goals.append((a * _rv(f) + _rv(o)) * _rv(g) + _rv(p) ==
+                         a * _rv(h) + _rv(q))
+
+    def conv(x, u1, u2):
+        f, o = rows[(u1, u2)]
+        return x * f + o
+    from fractions import Fraction as Fr
+    C, F_, K_ = "CELSIUS", "FAHRENHEIT", "KELVIN"
+    fixed = [
+        conv(Fr(0), C, K_) == Fr("273.15"), conv(Fr(0), C, F_) == 32,
+        conv(Fr(-40), C, F_) == -40, conv(Fr(0), K_, F_) == Fr("-459.67"),
+        conv(Fr("273.15"), K_, C) == 0, conv(Fr(32), F_, C) == 0,
+        conv(Fr(100), C, F_) == 212, conv(Fr("373.15"), K_, F_) == 212,
+    ] if all(k in rows for k in [(C, K_), (C, F_), (K_, F_), (K_, C),
+                                 (F_, C)]) else [False]
+    want += [z3.BoolVal(bool(x)) for x in fixed]
+    return [], z3.And(*(goals + want))
+
+
+# C12 -----------------------------------------------------------------------------
+@lemma("C12/push-body-pop-restores", ["C12"],
+       "entering (push c), a body that leaves the list as it found it, and "
+       "leaving (pop, which requires c on top) restores the list and does not "
+       "raise; nested blocks follow by induction on the nesting depth")
+def _c12a():
+    from .sym import Obj
+    s = z3.Const("s", z3.SeqSort(Obj))
+    c = z3.Const("c", Obj)
+    pushed = z3.Concat(s, z3.Unit(c))
+    n = z3.Length(pushed)
+    top_is = z3.And(n > 0, pushed[n - 1] == c)
+    popped = z3.Extract(pushed, 0, n - 1)
+    return [], z3.And(top_is, popped == s)
+
+
+@lemma("C12/register-twice-is-once", ["C12"],
+       "generic registration is idempotent")
+def _c12b():
+    from .sym import Obj
+    s = z3.Const("s", z3.SeqSort(Obj))
+    c = z3.Const("c", Obj)
+    once = z3.If(z3.Contains(s, z3.Unit(c)), s, z3.Concat(s, z3.Unit(c)))
+    twice = z3.If(z3.Contains(once, z3.Unit(c)), once,
+                  z3.Concat(once, z3.Unit(c)))
+    return [], twice == once
+
+
+@lemma("C12/remove-after-register-restores", ["C12"],
+       "removing a converter that was newly registered restores the list")
+def _c12c():
+    from .sym import Obj
+    s = z3.Const("s", z3.SeqSort(Obj))
+    c = z3.Const("c", Obj)
+    u = z3.Unit(c)
+    reg = z3.Concat(s, u)
+    i = z3.IndexOf(reg, u, 0)
+    n = z3.Length(reg)
+    removed = z3.Concat(z3.Extract(reg, 0, i), z3.Extract(reg, i + 1, n - i - 1))
+    return [z3.Not(z3.Contains(s, u))], removed == s
